@@ -1,6 +1,7 @@
 #!/bin/bash
 # run_all.sh [tier]: run every claimed check on the current tree (regenerates evidence/*.json)
 cd /verif
+python3 tools/selfcheck_anchors.py | tail -3
 T=${1:-quick}
 for P in $(python3 -c "import json;print(' '.join(c['property_id'] for c in json.load(open('MANIFEST.json'))['checks']))"); do
   ./check $P --tier $T 2>&1 | tail -1
